@@ -364,7 +364,7 @@ def h_sequence(codes, vmax):
 def conditions(tier):
     q = tier == 'quick'
     conds = []
-    T = 200 if q else 1200
+    T = 200 if q else 450
 
     def add(cid, fn, bounds, drives, **params):
         conds.append(Cond(cid, fn, bounds, drives, params, timeout=T))
